@@ -361,7 +361,9 @@ pub fn compare_eq(first: &PathAwareValue, second: &PathAwareValue) -> (res: Resu
                                 }
                             }
 
-                            None => {}
+                            None => {
+                                ; { verif_loop_value_0 = false; break 'result; }
+                            }
                         }
                     }
                     ; { verif_loop_value_0 = true; break 'result; }
